@@ -37,6 +37,7 @@ def plan(tier, seed, kf_ids):
     let b: i32 = kani::any();
     let n: i32 = kani::any();
     kani::assume(n >= 1 && n <= 3);
+    kani::assume(b != 0);   // 0^n = 0 by convention for every n (checked in c15_powi_conv)
     let x = I9F23::from_bits(b);
     hooks::reset(u64::MAX);
     let rn = tf::powi::<I9F23, I9F23>(x, -n);
